@@ -8,12 +8,13 @@
    (C09_sizes); the header block written by Header.Write is read back line for line by the
    model of net/textproto.ReadMIMEHeader for every header whose lines are well formed
    (C09_header_roundtrip), and the whole message comes back (C09_message_roundtrip).
-   Still decided per run only: that the re-serialisation of the parsed message is byte-identical
-   (last clause of the full statement below), and everything about encoded words, charsets and
+   The re-serialisation of the parsed message is byte-identical (C09_reserialise: the printed
+   normal form of a header is idempotent, for EVERY header).  Still decided per run only:
+   everything about encoded words, charsets and
    the RFC 5322 date forms, which are library code passed through or modelled for the four
    Winlink layouts. *)
 From Coq Require Import List NArith ZArith.
-From Verif Require Import Base.Bytes Msg.Message Msg.MessageP Msg.HeaderRT Msg.SizesP.
+From Verif Require Import Base.Bytes Msg.Message Msg.MessageP Msg.HeaderRT Msg.SizesP Msg.ReserP.
 Import ListNotations.
 Open Scope N_scope.
 
@@ -103,6 +104,32 @@ Theorem C09_message_roundtrip : forall (m : message) (files : list (bytes * byte
                      p_status := RfOk |}.
 Proof. exact message_roundtrip. Qed.
 Print Assumptions C09_message_roundtrip.
+
+(* Canonical form: parsing what Header.Write printed and printing it again gives the same
+   lines, for EVERY header (unsorted fields, a field split over several entries, keys that
+   differ in case, empty values: the sort is stable and grouping merges in order). *)
+Theorem C09_normal_form : forall h : header,
+  lines_of (fold_left add_line (lines_of h) []) = lines_of h.
+Proof. exact normal_form_idempotent. Qed.
+Print Assumptions C09_normal_form.
+
+(* The last clause of the full statement: re-serialising the parsed message gives back the
+   very same bytes. *)
+Theorem C09_reserialise : forall (m : message) (files : list (bytes * bytes)) hb,
+  let norm := fold_left add_line (lines_of (mhdr m)) [] in
+  header_write (mhdr m) = Some hb ->
+  Forall (fun kv => wf_line (fst kv) (snd kv)) (lines_of (mhdr m)) ->
+  parse_date_ok (hget (mhdr m) str_Date) = Some true ->
+  parse_date_ok (hget norm str_Date) = Some true ->
+  atoi_ignore_err (hget norm str_Body) = Z.of_nat (length (mbody m)) ->
+  mfiles m = map snd files ->
+  hvalues norm str_File = map (fun nd => file_value (fst nd) (snd nd)) files ->
+  sizes_ok (map snd files) ->
+  exists b, message_write m = WOk b /\
+    let p := read_from b in
+    message_write {| mhdr := p_hdr p; mbody := p_body p; mfiles := map pf_data (p_files p) |} = WOk b.
+Proof. exact message_reserialise. Qed.
+Print Assumptions C09_reserialise.
 
 (* an instance of the full statement, computed by the kernel (a test of the statement) *)
 Example C09_instance :
